@@ -51,14 +51,18 @@ func (o *Obligation) smtTextS(extra []string, light bool) string {
 		// (they only constrain uninterpreted functions) so that solvers can build a model
 		sb.WriteString(g.preambleOpt(false))
 	} else if light {
-		sb.WriteString(g.preambleQF())
+		sb.WriteString(g.preambleQFFor(func(a string) bool { return g.textVisible(a, o.Blk) }))
 	} else {
 		sb.WriteString(g.preambleOpt(true))
 	}
-	for _, f := range g.facts[:o.NFacts] {
+	for i, f := range g.facts[:o.NFacts] {
 		if light && hasQuant(f) {
 			continue
 		}
+		if !o.Cover && !g.factVisible(i, o.Blk) {
+			continue
+		}
+
 		sb.WriteString("(assert " + f + ")\n")
 	}
 	if light {
